@@ -31,6 +31,7 @@ def required_cells(tier):
             req["combo:%s,%s/%s" % (a, b, r)] = 50 if q else 2000
     req["history:direction-vector-reused-after-assignment"] = 300
     req["nt:int"] = 1000
+    req["gen:near-parallel"] = 1000
     return req
 
 
@@ -64,6 +65,17 @@ def cases(rng, budget, widx, nworkers, tier):
                 continue
             v = gen._reduce(v)
             label = "perpendicular"
+        elif r < 0.6:
+            # nearly parallel but well outside the tolerance: a long lattice direction and the same one step off
+            base = rng.choice(d2)
+            sc = rng.choice((4, 6, 8))
+            u = K.mul(base, sc)
+            e = [F(0), F(0), F(0)]
+            e[rng.randrange(3)] = rng.choice((F(1, 4), F(-1, 4), F(1, 2), F(-1, 2), F(1), F(-1)))
+            v = K.add(K.mul(u, rng.choice((1, -1))), tuple(e))
+            if K.cross(u, v) == (0, 0, 0):
+                continue
+            label = "near-parallel"
         else:
             v = gen.rdir(rng, 4)
             label = "random"
@@ -71,7 +83,7 @@ def cases(rng, budget, widx, nworkers, tier):
         c_ = {"u": u, "v": v, "combo": n % len(COMBOS), "label": label, "ls": rng.getrandbits(30),
               "p": gen.rpt(rng), "q": gen.rpt(rng)}
         if rng.random() < 0.1:
-            c_["hist"] = {"who": rng.randrange(2), "w0": gen.rdir(rng, 4)}
+            c_["hist"] = {"who": rng.randrange(2), "w0": gen.rdir(rng, 4), "list": rng.random() < 0.4}
         yield c_
 
 
@@ -83,6 +95,21 @@ def _mk(G, kind, p, d, r, hist=None, nt=float):
     # history: the direction Vector is first another direction, is used (angle / length / parallel),
     # and is then overwritten coordinate by coordinate before the operand is built from it
     w0 = hist["w0"]
+    if hist.get("list"):
+        # the vector is built from a list that the caller later refills with other numbers
+        buf = [float(c) for c in d]
+        vec = G.Vector(buf)
+        other = G.Vector(1.0, -2.0, 0.5)
+        try:
+            vec.length(), G.angle(vec, other)
+        except Exception:
+            pass
+        for i in range(3):
+            buf[i] = float(w0[i])
+        if kind == "VEC":
+            return vec
+        P = G.Point(*[float(c) for c in p])
+        return G.Line(P, vec) if kind == "L" else G.Plane(P, vec)
     vec = G.Vector(*[float(c) for c in w0])
     other = G.Vector(1.0, -2.0, 0.5)
     for fn in (lambda: vec.length(), lambda: G.angle(vec, other), lambda: G.parallel(vec, other), lambda: vec.normalized(), lambda: hash(vec)):
